@@ -12,6 +12,7 @@ import (
 	"net/http"
 	"net/url"
 	"os"
+	"os/exec"
 	"path/filepath"
 	"regexp"
 	"sort"
@@ -755,6 +756,49 @@ func runC19More(res *procxResult) {
 		}
 		pw.close()
 	}
+	// (5) non-ASCII output larger than any plausible buffer: a three-byte character straddles every power-of-two boundary
+	{
+		unit := "\xe2\x82\xac" // the euro sign
+		n := 40000
+		sc := map[string][]string{"a": {fmt.Sprintf("printf 'x'; i=0; while [ $i -lt %d ]; do printf '%s%s%s%s%s%s%s%s%s%s'; i=$((i+10)); done", n, unit, unit, unit, unit, unit, unit, unit, unit, unit, unit)}}
+		pw := newProcWorld(mkDefs(map[string]PipeCfg{"u": {Conc: 1, QL: -1, Graph: graphOne, Script: sc}}), 0)
+		j, _ := pw.r.ScheduleAsync("u", prunner.ScheduleOpts{})
+		if v, ok := pw.wait(j.ID, 120*time.Second); !ok {
+			res.inconclusive("non-ASCII output job did not finish within 120s")
+		} else if v.LastError != "" {
+			res.add("non-ascii-output-job-fails", "a task that prints 120 kB of non-ASCII text fails: "+v.LastError)
+		} else {
+			want := "x" + strings.Repeat(unit, n)
+			res.Cases += 2
+			res.Distinct += 2
+			if got, _ := pw.output(j.ID, "a", "stdout"); string(got) != want {
+				res.add("non-ascii-output:store", fmt.Sprintf("120 kB of three-byte characters: the log store returns %d bytes, %d expected (first difference at byte %d)", len(got), len(want), firstDiffByte(string(got), want)))
+			}
+			_, body := apiGet(pw.h, "GET", "/job/logs?id="+j.ID.String()+"&task=a", "")
+			api, _ := decodeJSON(body).(map[string]interface{})
+			if as, _ := api["stdout"].(string); as != want {
+				res.add("non-ascii-output:api", fmt.Sprintf("120 kB of three-byte characters: the log API returns %d bytes, %d expected (first difference at byte %d)", len(as), len(want), firstDiffByte(as, want)))
+			}
+		}
+		pw.close()
+	}
+	// (6) a process that outlives the command which started it and still holds the task's output: what it writes later
+	// (here after 2.6 s, longer than the default kill timeout) is output of the task
+	{
+		sc := map[string][]string{"a": {"sh -c '(sleep 2.6; printf late) & printf early-'", "printf 'next'"}}
+		pw := newProcWorld(mkDefs(map[string]PipeCfg{"l": {Conc: 1, QL: -1, Graph: graphOne, Script: sc}}), 0)
+		j, _ := pw.r.ScheduleAsync("l", prunner.ScheduleOpts{})
+		if v, ok := pw.wait(j.ID, 60*time.Second); !ok {
+			res.inconclusive("late-output job did not finish within 60s")
+		} else if v.LastError == "" {
+			res.Cases++
+			res.Distinct++
+			if got, _ := pw.output(j.ID, "a", "stdout"); string(got) != "early-latenext" {
+				res.add("late-output-of-left-behind-process", fmt.Sprintf("a command leaves a process behind that holds the task's stdout and writes 2.6 s later: the log holds %q, want %q", got, "early-latenext"))
+			}
+		}
+		pw.close()
+	}
 	// (4) the logs of a finished job stay readable, under the task names the job had, after a reload that renames /
 	// removes / adds tasks; a task the job never had stays refused
 	{
@@ -786,6 +830,18 @@ func runC19More(res *procxResult) {
 		}
 		pw.close()
 	}
+}
+
+func firstDiffByte(a, b string) int {
+	for i := 0; i < len(a) && i < len(b); i++ {
+		if a[i] != b[i] {
+			return i
+		}
+	}
+	if len(a) < len(b) {
+		return len(a)
+	}
+	return len(b)
 }
 
 func descCmds(cs []chunkSpec) string {
@@ -921,12 +977,22 @@ func c20Shapes(tier string) []treeShape {
 		treeShape{"earlier-command-daemon", []string{"bash -c 'sleep 600 >/dev/null 2>&1 &'", "sleep 600"}, 2},
 		treeShape{"earlier-command-daemon-ignoring-int", []string{"bash -c \"trap '' INT; sleep 600 >/dev/null 2>&1 &\"", "sleep 600"}, 2},
 		treeShape{"two-commands", []string{"sleep 0.05", "sleep 600"}, 1},
+		// the helper was left behind by an earlier command that FAILED (the script goes on: `|| true`)
+		treeShape{"earlier-failed-command-daemon", []string{"bash -c 'sleep 600 >/dev/null 2>&1 & exit 3' || true", "sleep 600"}, 2},
+		// a process whose executable name contains a blank (its /proc stat line reads "pid (long worker) S ...")
+		treeShape{"name-with-blank", []string{"bash -c \"'" + longWorkerPath() + "' 600 >/dev/null 2>&1 &\"", "sleep 600"}, 1},
 	)
 	return shapes
 }
 
 func runC20(tier string, part, parts int) procxResult {
 	res := procxResult{prop: "C20"}
+	defer func() {
+		if longWorker != "" {
+			os.RemoveAll(filepath.Dir(longWorker))
+			longWorker = ""
+		}
+	}()
 	if part == 0 {
 		runC20History(&res)
 	}
@@ -1114,6 +1180,32 @@ func runC20History(res *procxResult) {
 			syscall.Kill(pid, syscall.SIGKILL)
 		}
 	}
+}
+
+// longWorkerPath: a copy of sleep(1) under a name with a blank, made once per process
+var longWorker string
+
+func longWorkerPath() string {
+	if longWorker != "" {
+		return longWorker
+	}
+	dir, err := os.MkdirTemp("", "verif-lw-")
+	if err != nil {
+		panic(err)
+	}
+	src, err := exec.LookPath("sleep")
+	if err != nil {
+		panic(InfraError{"no sleep(1) on PATH"})
+	}
+	b, err := os.ReadFile(src)
+	if err != nil {
+		panic(err)
+	}
+	longWorker = filepath.Join(dir, "long worker")
+	if err := os.WriteFile(longWorker, b, 0o755); err != nil {
+		panic(err)
+	}
+	return longWorker
 }
 
 func countSleeps(marker string) int {
